@@ -335,7 +335,21 @@ func (g *gen) expr(t typ, d int) node {
 	return g.typed(t, d)
 }
 
+// a test form: now and then it returns several values, the first of which decides (repo_fixes/C01-19)
 func (g *gen) test(d int) node {
+	c := g.testRaw(d)
+	if g.r.Chance(12) {
+		g.h("test-values")
+		junk := g.expr(typ(g.r.Intn(3)), d-2)
+		if g.r.Chance(30) {
+			return node{lisp("values", "nil", junk.L), "(EValues [EConst DNil; " + junk.G + "])"}
+		}
+		return node{lisp("values", c.L, junk.L), "(EValues " + gl(c.G, junk.G) + ")"}
+	}
+	return c
+}
+
+func (g *gen) testRaw(d int) node {
 	if g.r.Chance(70) {
 		ops := []struct{ l, p string }{{"<", "PLt"}, {">", "PGt"}, {"=", "PNumEq"}}
 		o := common.Pick(g.r, ops)
@@ -1225,7 +1239,7 @@ func (g *gen) typed(t typ, d int) node {
 	default:
 		switch x := g.r.Intn(100); {
 		case x < 25:
-			return g.test(d)
+			return g.testRaw(d)
 		case x < 33:
 			a := g.expr(tAny, d-1)
 			g.h("prim")
